@@ -1,5 +1,6 @@
 (* C18 — card identity is a fixed function of the data the terminal reports.  Statements only. *)
 From Zvt Require Import Base Length Cp437 Encoding Codec Lookup Client ClientProps.
+From Zvt Require Import ClientLog.
 Open Scope N_scope.
 
 (* the canonical membership id: upper case; longer than 14 digits -> the last 14, a leading 000000 of
@@ -42,6 +43,21 @@ Example C18_ex_canon :
   canon_uid [48;52;97;49] = [48;52;65;49].
 Proof. split; vm_compute; reflexivity. Qed.
 
+(* the public call: when the exchange on the current connection goes through, read_card's answer is the classification fold
+   (the theorems above) over exactly the replies received *)
+Theorem C18_read_card_is_the_fold_over_received_replies : forall cfg w id its,
+  let t := c_read_card_timeout cfg in
+  let cmd := mk_cmd "zvt::packets::ReadCard" [VInt t]
+               [(25, VSome (VInt 16)); (252, VSome (VInt 2));
+                (6, VSome (VRec (build_rec (snd (layout_of "zvt::packets::tlv::ReadCard")) [] [(7957, VSome (VInt 208)); (8032, VSome (VInt 7))])))] in
+  w_cur w = Some id ->
+  polls_ok (seq_of "zvt::sequences::ReadCard" cmd) ((t + 2) * 1000) id PStart w its -> (length its < LOOPFUEL)%nat ->
+  fst (read_card cfg w) =
+  run_handler (h_read_card (variant_ix "zvt::sequences::ReadCardResponse" "Abort") (variant_ix "zvt::sequences::ReadCardResponse" "StatusInformation"))
+              f_read_card None its.
+Proof. exact read_card_follows_polls. Qed.
+
+Print Assumptions C18_read_card_is_the_fold_over_received_replies.
 Print Assumptions C18_canonical_uid.
 Print Assumptions C18_bank_if_listed.
 Print Assumptions C18_listed_never_membership.
